@@ -536,6 +536,7 @@ def main():
     ap.add_argument("-evidence", dest="evidence_flag", default="true")
     ap.add_argument("-unit-seconds", dest="unit_seconds", default=None)
     ap.add_argument("-unit", dest="unit", default=None)
+    ap.add_argument("-crosscheck", dest="crosscheck", default=None)   # gosym flag, accepted and ignored (./check C13 passes one argument list to both engines)
     a = ap.parse_args()
     if a.evidence_flag == "false":
         a.no_evidence = True
